@@ -129,3 +129,83 @@ class RepoClassModel(Model):
 
 def install(world):
     world.models["class:Constraints"] = RepoClassModel(world, "utype/parser/rule.py", "Constraints")
+
+
+class RecordModel(Model):
+    """Instance of a repo class: declared fields (wrappers), methods resolve to contracted repo
+    functions with `self` bound, properties are inlined or contracted."""
+
+    def __init__(self, world, relpath, clsname, fields, bases=(), truthy_true=True, inline_props=()):
+        self.world = world
+        self.relpath = relpath
+        self.clsname = clsname
+        self.name = clsname
+        self.field_descs = dict(fields)
+        self.bases = bases
+        self.inline_props = set(inline_props)
+        self.class_model = RepoClassModel(world, relpath, clsname, bases=tuple(b.class_model for b in bases))
+
+    def fresh(self, ex, pname, **opts):
+        rec = VRec(self, {}, ref=z3.Const(pname + "_ref", V), origin="param:" + pname)
+        for f, d in self.field_descs.items():
+            dd = opts.get(f, d)
+            rec.fields[f] = dd.fresh(ex, "%s_%s" % (pname, f))
+            v = rec.fields[f]
+            if isinstance(v, (VSeq, VMap, VRec)) and isinstance(getattr(v, "origin", None), str):
+                v.origin = "param:%s.%s" % (pname, f)
+        ex.assume(rec.ref != sym.NONE)
+        return rec
+
+    def class_value(self, ex, rec=None):
+        return self.class_model.class_value(ex)
+
+    def isinstance_(self, ex, rec, c):
+        if c.model is self.class_model:
+            return z3.BoolVal(True)
+        if c.py is object:
+            return z3.BoolVal(True)
+        return z3.BoolVal(False)
+
+    def hasattr(self, ex, rec, name):
+        return z3.BoolVal(name in rec.fields or self.class_model.find(name) is not None)
+
+    def getattr(self, ex, rec, name, node):
+        if name in rec.fields:
+            return rec.fields[name]
+        r = self.class_model.find(name)
+        if r is None:
+            if name == "__class__":
+                return self.class_value(ex)
+            ex.throw("AttributeError", node, origin="getattr:" + name)
+        kind, n, owner = r
+        if kind == "const":
+            from .world import _ModSrc
+            fs = _ModSrc(extract.module(owner.relpath))
+            return ex.eval(n, Frame(fs, {}, contract=None))
+        deco = [d.id for d in n.decorator_list if isinstance(d, ast.Name)]
+        qn = "%s.%s" % (owner.clsname, name)
+        if "property" in deco or any(isinstance(d, ast.Name) and d.id == "cached_property" for d in n.decorator_list):
+            f = self.world.repo_function(owner.relpath, qn, ex, bound=rec)
+            return f.call(ex, [], {})
+        if "classmethod" in deco:
+            return self.world.repo_function(owner.relpath, qn, ex, bound=self.class_value(ex))
+        if "staticmethod" in deco:
+            return self.world.repo_function(owner.relpath, qn, ex)
+        return self.world.repo_function(owner.relpath, qn, ex, bound=rec)
+
+    def setattr(self, ex, rec, name, v, node):
+        ex.mutlog.append((id(rec), "set:" + name, rec))
+        rec.fields[name] = v
+
+    def havoc_fields(self, ex, rec, name):
+        for f, cur in list(rec.fields.items()):
+            if isinstance(cur, (VSeq, VMap)):
+                self.world.ext.havoc_inplace(ex, cur, "%s_%s" % (name, f))
+            else:
+                rec.fields[f] = self.world.ext.havoc_like(ex, cur, "%s_%s" % (name, f))
+
+    def enter_cm(self, ex, rec, node):
+        r = self.class_model.find("__enter__")
+        if r is None:
+            raise Unsupported("%s is not a context manager" % self.clsname)
+        return rec
